@@ -290,6 +290,17 @@ def check_property(pid, tier, seed):
             cfg["lean_modules"] = [m for m in cfg.get("lean_modules", []) if m != "BS.Props.GenCore"]
             cfg["theorems"] = [t for t in cfg.get("theorems", []) if t[0] != "BS.Props.GenCore"]
             notes.append("BS.Props.GenCore not built on this run (a tie theorem is broken or not available)")
+        if cfg.get("genextra"):
+            xm, xneeds = cfg["genextra"]
+            lost_here = [n for n in xneeds if n in untranslated]
+            if gencore_off or lost_here:
+                cfg = dict(cfg)
+                cfg["lean_modules"] = [m for m in cfg.get("lean_modules", []) if m != xm]
+                cfg["theorems"] = [t for t in cfg.get("theorems", []) if t[0] != xm]
+                notes.append(f"{xm} not built on this run (" + ("its function " + ", ".join(lost_here) + " is outside the translator's subset" if lost_here
+                             else "it imports BS.Props.GenCore") + "); the correspondence check carries the tie, searching harder")
+                if lost_here:
+                    tie_lost = tie_lost + lost_here
         if tie_broken:
             proof_broken.append("tie by translation broken: the Rust function(s) behind " + ", ".join(tie_broken) +
                                 " (BS/Proofs/GenTie.lean) no longer equal the model's; function-level search: " +
